@@ -113,6 +113,7 @@ type trans struct {
 	localAllocs map[*ssa.Alloc]bool
 	heapRefs    map[string]string
 	assertDone  map[string]bool
+	immCap      map[*ssa.FreeVar]bool
 	sharedHeaps map[string]bool
 	assertBound map[int]bool
 	heapVal     map[string]types.Type // struct-valued heaps: the value type (for well-formedness of nested references)
@@ -943,7 +944,12 @@ func (tr *trans) funcEnv(st State) *Env {
 			continue
 		}
 		// captured variable: pointer to the cell
-		if pt, ok := fv.Type().Underlying().(*types.Pointer); ok {
+		if pt, ok := fv.Type().Underlying().(*types.Pointer); ok && tr.immutableCapture(fv) {
+			sym := q("fv." + fv.Name() + ".val")
+			tr.vc.declFun(sym, fmt.Sprintf("(declare-const %s %s)", sym, tr.vc.sortOf(pt.Elem())))
+			env.vars[fv.Name()] = env.goSV(sym, pt.Elem())
+			env.vars[fv.Name()+"0"] = env.vars[fv.Name()]
+		} else if pt, ok := fv.Type().Underlying().(*types.Pointer); ok {
 			l := &Loc{kind: locObj, ref: tr.val(fv), ty: pt.Elem()}
 			env.vars[fv.Name()] = env.goSV(tr.load(st, l), pt.Elem())
 			env.vars[fv.Name()+"0"] = env.goSV(tr.load(tr.entry, l), pt.Elem())
